@@ -15,3 +15,36 @@ prop("C05", shards=16, exhaustive_ok=True,
           "distinct by construction (counted arithmetically); rapid cases by hash of the case.",
      assumptions=["ref/leb (independent LEB128) is correct; cross-checked by its own round-trip test",
                   "non-minimal encodings and excess bits in the last group may be rejected or truncated (not asserted)"])
+
+prop("C01", shards=16,
+     technique="rapid property-based testing against an independent NBT reader/writer and an independent statement of the Go<->NBT mapping",
+     rule="(A) generated NBT trees (all 12 tags at any position incl. root, boundary numerics, NaN payloads, odd keys, empty/typed "
+          "lists, lists of containers, rarely 32767-byte strings) encoded by the reference writer x {file, network} x target {any, "
+          "map[string]any, typed slices, reflect-built struct with exact nbtkey tags and a generated subset of fields dropped to force "
+          "skipping} x trailing bytes x {ByteReader, plain Reader}: decoded value == reference mapping, root name, bytes taken from "
+          "the stream == document length. (B) generated Go types/values (see C02) x {file, network} x {value, pointer}: output parsed "
+          "by the reference reader must equal the tree the documented mapping assigns. Non-trivial: container in container, or "
+          "trailing bytes, or >=1 skipped field, or non-compound root (A); type depth >= 2 or pointer/interface/carrier/array/"
+          "unsigned/embedded/named component (B). Distinct: hash of (document bytes, target, format) / of the JSON case.",
+     level_text="Sampled structured inputs with bounded depth/size checked against an independent reference codec; both directions "
+                "and byte accounting. No exhaustive part.",
+     level_note="Trusted: harness/ref/nbt (independent strict reader/writer), harness/gomap (independent statement of the documented "
+                "mapping), reflect. Undocumented choices accepted either way: []bool as byte array or list of bytes; element tag of "
+                "an empty list. Duplicate keys, strings > 32767 bytes excluded. Panics/refusals on the encode side are charged to C02.",
+     assumptions=["duplicate compound keys have no agreed reading and are not generated",
+                  "struct targets always contain an exact-name field for keys that have a case-insensitive twin"])
+
+prop("C02", shards=16,
+     technique="rapid property-based testing: typed round trip over a generated Go type universe; byte-exact re-encode for carriers",
+     rule="Type descriptors (bool, all sized ints/uints, floats, strings, slices, arrays, string-keyed maps, reflect.StructOf structs "
+          "with nbt/nbtkey tags, omitempty, list, '-', embedded value/pointer structs with shadowing, pointer fields nil/non-nil, "
+          "interface fields holding the dynamic types decoding produces, RawMessage, named types with/without methods, "
+          "TextMarshaler) with boundary-biased values x {file, network} x {value, pointer}: Marshal must not panic nor modify v; "
+          "Unmarshal into a fresh T must equal v (NaN by bits, nil==empty, non-emitted fields zero); root name returned. Carriers: "
+          "reference-encoded documents decoded into RawMessage / dynbt.Value at root, struct field, map value, list element and "
+          "re-encoded: bytes identical. Non-trivial: type depth >= 2 or special component; carrier not a bare scalar root. "
+          "Distinct: hash of the JSON case. float32 signalling NaNs are excluded on the encode path (quieted by Go's conversions).",
+     level_text="Sampled types and values from a generated universe, bounded depth; equality under the stated relation.",
+     level_note="Trusted: harness/gomap builders and comparison, harness/ref/nbt. int/uint, channels, funcs, non-string map keys are "
+                "outside the documented universe. []any holding int8/int32/int64 elements is excluded (documented as typed array, "
+                "cannot come back as []any). Nil pointer fields are expected to be left out (see fix 25ca494).")
